@@ -244,6 +244,29 @@ fn fidelity(case: &Case, obs: &mut Obs) -> PropResult {
 	Ok(())
 }
 
+/// corpus classes (javac output): two independent parsers must agree
+fn corpus(ctx: &mut Ctx) {
+	let files = crate::corpus::load();
+	ctx.run_enum("corpus_javac", |rec| {
+		for (name, bytes) in &files {
+			let mut obs = rec.obs();
+			let r = crate::engine::no_panic(|| -> PropResult {
+				let mut expected = decode(bytes).map_err(|e| format!("harness: the strict decoder rejects the javac-compiled class {name}: {e}"))?.canon();
+				apply_reader_masks(&mut expected, &mut obs);
+				let got = read_and_project(bytes).map_err(|e| format!("{name}: {e}"))?;
+				if got != expected {
+					return Err(format!("{name}: the class the reader delivers differs from the class file: (strict decoder vs reader) {}", first_diff(&expected, &got)));
+				}
+				labels_for(&expected, &[], &mut obs);
+				obs.nontrivial_if(nontrivial_class(&expected));
+				Ok(())
+			})
+			.and_then(|x| x);
+			rec.case(|| serde_json::json!({"corpus_class": name, "bytes": bytes.len()}), crate::engine::fnv64(bytes), obs, r);
+		}
+	});
+}
+
 /// the reader on large methods (tens of kilobytes, offsets near the 16-bit limits, goto_w, wide locals): the
 /// geometry models of C02 are ground truth here
 fn large(case: &crate::props::c02::GeoCase, obs: &mut Obs) -> PropResult {
@@ -279,4 +302,5 @@ pub fn run(ctx: &mut Ctx) {
 	ctx.assume("strings are valid Unicode (no unpaired surrogates); names are valid for duke's name types");
 	ctx.run_sub("reader_fidelity", ctx.tier.pick(6000, 120_000), strategy, fidelity);
 	ctx.run_sub("large_methods", ctx.tier.pick(300, 6000), crate::props::c02::geo_strategy, large);
+	corpus(ctx);
 }
